@@ -626,6 +626,9 @@ def run(ctx, env):
     n7 += lookup_table_rule(ctx, an, prog, "R4.7", "variable_versions::v9_lookup::ScopeFieldType", "<variable_versions::v9_lookup::ScopeFieldType as std::convert::From<u16>>::from", {"Unknown"})
     datatype_scrutinee_rule(ctx, an, prog, "R4.7", "<variable_versions::data_number::FieldDataType as std::convert::From<variable_versions::v9_lookup::V9Field>>::from", "variable_versions::v9_lookup::V9Field")
     ctx.floor("R4.7", "v9", "lookup arms", n7, 100)
+    ctx.rule("R4.12", "records are all-or-nothing: a decode step whose failure is tolerated (taken as the start of padding) has not appended anything to the reported collection by the time it fails - helpers that fill an out-parameter either have their failure propagated or insert only after their last fallible step")
+    from . import consume as _cons
+    _cons.partial_output_rule(ctx, prog, an, "R4.12", lambda b: b.path.startswith(("variable_versions::v9::", "variable_versions::data_number::")))
     # R4.11
     ctx.rule("R4.11", "a field value is reported as sent: in every arm of FieldValue::from_field_type (private helpers inlined) no arithmetic, clamping or narrowing cast is applied to a value read from the input bytes, and each time kind gets its unit from the Duration constructor of that unit")
     from . import valuepath
